@@ -13,6 +13,7 @@ impl AtomicUsize {
     pub uninterp spec fn published_ge(&self, v: usize) -> bool;
     pub uninterp spec fn claimed(&self, v: usize) -> bool;
     pub uninterp spec fn stamp(&self, v: usize) -> bool;
+    pub uninterp spec fn stamp_any(&self) -> bool;
     pub uninterp spec fn stored(&self, v: usize) -> bool;
     pub uninterp spec fn store_allowed(&self) -> bool;
     #[verifier::external_body]
@@ -30,7 +31,7 @@ impl AtomicUsize {
     #[verifier::external_body]
     pub fn fetch_add(&self, d: usize, o: Ordering) -> (p: usize)
         requires forall|x: usize| #[trigger] self.inv(x) ==> self.inv(x.wrapping_add(d)),
-        ensures self.inv(p), self.observed(p), self.stamp(p) { unimplemented!() }
+        ensures self.inv(p), self.observed(p), self.stamp(p), self.stamp_any() { unimplemented!() }
     /// assumed of std: a successful CAS returns Ok(current); it is the only way to learn `claimed`.
     #[verifier::external_body]
     pub fn compare_exchange_weak(&self, current: usize, new: usize, s: Ordering, f: Ordering) -> (r: Result<usize, usize>)
